@@ -142,14 +142,27 @@ def _ip_vars(f):
     return ('ip',)
 
 
+def opcode_switches(ctx, f):
+    """the switches of f that dispatch on a regexp opcode: recognised by their case
+    labels (spelled with RE_OPCODE_* macros of the right value), not by the name of
+    the variable they switch on"""
+    out = []
+    for sw in cu.find_switches(f):
+        if cu.switch_cond(f, sw) is None:
+            continue
+        n = 0
+        for labels, stmts in cu.switch_groups(f, sw):
+            n += sum(1 for l in labels if l['k'] == 'case' and (l.get('mn') or '').startswith('RE_OPCODE_')
+                     and l.get('v') == ctx.prog.macro_value(l['mn']))
+        if n:
+            out.append(sw)
+    return out
+
+
 def reader_cases(ctx, f):
     """[(opcode names of the group, nodes)] for every switch over an opcode in reader f"""
     out = []
-    for sw in cu.find_switches(f):
-        c = cu.switch_cond(f, sw)
-        s = canon(f, c) if c is not None else ''
-        if s not in ('*ip', 'opcode', '*fiber->ip'):
-            continue
+    for sw in opcode_switches(ctx, f):
         for labels, stmts in cu.switch_groups(f, sw):
             ops = [l.get('mn') for l in labels if l['k'] == 'case' and l.get('mn', '').startswith('RE_OPCODE_')
                    and l.get('v') == ctx.prog.macro_value(l['mn'])]
@@ -158,13 +171,64 @@ def reader_cases(ctx, f):
     return out
 
 
-def _is_ip(f, e):
+def ip_designators(ctx, f):
+    """what plays the instruction pointer in reader f: the thing whose dereference an
+    opcode switch dispatches on (directly, or through a local that was assigned the
+    dereference).  A set of ('ref', name) / ('member', field)."""
+    cached = getattr(f, '_ip_roles', None)
+    if cached is not None:
+        return cached
+    out = set()
+
+    def designate(e):
+        e = cu.strip_casts(f, e)
+        if e is not None and e['k'] == 'un' and e['op'] == '*':
+            x = cu.strip_casts(f, f.kid(e, 0))
+            if x is not None and x['k'] == 'ref':
+                out.add(('ref', x['name']))
+            elif x is not None and x['k'] == 'member':
+                out.add(('member', x['fld']))
+    for sw in opcode_switches(ctx, f):
+        c = cu.strip_casts(f, cu.switch_cond(f, sw))
+        if c is None:
+            continue
+        designate(c)
+        if c['k'] == 'ref':
+            for n in f.all_nodes():
+                if n['k'] == 'decl' and n.get('name') == c['name'] and n.get('c'):
+                    designate(f.kid(n, 0))
+                if n['k'] == 'bin' and n['op'] == '=':
+                    l = cu.strip_casts(f, f.kid(n, 0))
+                    if l is not None and l['k'] == 'ref' and l['name'] == c['name']:
+                        designate(f.kid(n, 1))
+    # a local instruction pointer is a copy of a fiber's: `ip = fiber->ip` makes that
+    # member a designator too (and the other way round)
+    for kind, name in list(out):
+        if kind != 'ref':
+            continue
+        for n in f.all_nodes():
+            l = r = None
+            if n['k'] == 'bin' and n['op'] == '=':
+                l, r = cu.strip_casts(f, f.kid(n, 0)), cu.strip_casts(f, f.kid(n, 1))
+            elif n['k'] == 'decl' and n.get('c'):
+                l, r = {'k': 'ref', 'name': n['name']}, cu.strip_casts(f, f.kid(n, 0))
+            if l is None or r is None:
+                continue
+            for x, y in ((l, r), (r, l)):
+                if x['k'] == 'ref' and x['name'] == name and y['k'] == 'member':
+                    out.add(('member', y['fld']))
+    f._ip_roles = out
+    return out
+
+
+def _is_ip(f, e, roles=None):
     e = cu.strip_casts(f, e)
     if e is None:
         return False
-    if e['k'] == 'ref' and e['name'] == 'ip':
-        return True
-    return e['k'] == 'member' and e['fld'] == 'ip'
+    roles = roles if roles is not None else (getattr(f, '_ip_roles', None) or set([('ref', 'ip'), ('member', 'ip')]))
+    if e['k'] == 'ref':
+        return ('ref', e['name']) in roles
+    return e['k'] == 'member' and ('member', e['fld']) in roles
 
 
 def r3_1(ctx):
@@ -197,6 +261,7 @@ def r3_1(ctx):
         if f is None:
             ctx.require(ctx.fixture, 'reader %s not found' % rname)
             continue
+        ip_designators(ctx, f)
         for ops, nodes, labels in reader_cases(ctx, f):
             advs = []
             reads = []
@@ -491,6 +556,161 @@ FIXTURES = {
 }
 
 
+# callees that take a string operand of the VM as a C string by design:
+# (callee) -> reason
+VM_CSTRING_OK = {
+    'yr_object_dict_get_item': 'dictionary keys are NUL-terminated names (documented); the lookup '
+                               'compares with strcmp',
+}
+
+
+def r3_6(ctx):
+    """the operand of `matches` (and every other string operand of the condition VM) is
+    handed on as bytes + length: in yr_execute_code a SIZED_STRING's c_string is never
+    passed to a function without the same string's length in the same call (a callee that
+    measures it with strlen stops at the first NUL byte, so the regexp runs against a
+    prefix of the operand)"""
+    f = ctx.prog.fn('yr_execute_code', 'libyara/exec.c')
+    if f is None:
+        ctx.require(ctx.fixture, 'yr_execute_code not found')
+        return
+    n = 0
+    occ = {}
+    for c in f.calls():
+        args = f.call_args(c)
+        for a in args:
+            for m in f.walk(a):
+                if m['k'] == 'member' and m['fld'] == 'c_string' and m.get('rec') in ('SIZED_STRING', '_SIZED_STRING'):
+                    base = canon(f, f.kid(m, 0))
+                    has_len = any(x['k'] == 'member' and x['fld'] == 'length' and canon(f, f.kid(x, 0)) == base
+                                  for a2 in args for x in f.walk(a2))
+                    cal = c.get('callee') or 'indirect'
+                    n += 1
+                    occ[cal] = occ.get(cal, 0) + 1
+                    key = 'yr_execute_code:%s%s:string-with-length' % (cal, '#%d' % occ[cal] if occ[cal] > 1 else '')
+                    if not has_len and cal in VM_CSTRING_OK:
+                        ctx.ob('R3.6', key, True, f.loc(c), 'exception: ' + VM_CSTRING_OK[cal])
+                    else:
+                        ctx.ob('R3.6', key, has_len, f.loc(c),
+                               'the operand\'s bytes are passed with its length' if has_len else
+                               '%s receives %s->c_string without %s->length: the string operand is '
+                               'cut at its first NUL byte' % (cal, base, base))
+    ctx.count('vm_string_operand_calls', n)
+
+
+def r3_7(ctx):
+    """the two halves of a masked literal's 16-bit operand mean the same to the emitter
+    and to every reader: the emitter packs `mask << 8 | value`; a reader that tests
+    `(input & A) == B` for such an instruction must take A from the high half (`args >> 8`,
+    or the byte at +2 of the little-endian operand) and B from the low half (`args & 0xFF`,
+    or the byte at +1)"""
+    prog = ctx.prog
+    emit = prog.fn('_yr_re_emit', 'libyara/re.c')
+    ctx.require(emit is not None or ctx.fixture, '_yr_re_emit not found')
+    hi_field = None
+    if emit is not None:
+        for n in emit.all_nodes():
+            if n['k'] == 'bin' and n['op'] == '<<' and cu.const_of(cu.strip_casts(emit, emit.kid(n, 1))) == 8:
+                l = cu.strip_casts(emit, emit.kid(n, 0))
+                if l is not None and l['k'] == 'member' and l['fld'] in ('mask', 'value'):
+                    hi_field = l['fld']
+    ctx.require(hi_field is not None or ctx.fixture, 'the packing of the masked-literal operand was not found')
+    hi_field = hi_field or 'mask'
+    want_mask, want_value = ('hi', 'lo') if hi_field == 'mask' else ('lo', 'hi')
+    M_OPS = set(prog.macro_value(x) for x in ('RE_OPCODE_MASKED_LITERAL', 'RE_OPCODE_MASKED_NOT_LITERAL'))
+    n_sites = 0
+    done_helpers = set()
+    for rname in READERS:
+        f = prog.fn(rname, 'libyara/re.c')
+        if f is None:
+            continue
+        groups = []
+        for ops, nodes, labels in reader_cases(ctx, f):
+            if any(o in ('RE_OPCODE_MASKED_LITERAL', 'RE_OPCODE_MASKED_NOT_LITERAL') for o in ops):
+                groups.append(nodes)
+
+        def half(fn, e, scope, depth=0):
+            e = cu.strip_casts(fn, e)
+            if e is None or depth > 3:
+                return None
+            if e['k'] == 'un' and e['op'] == '*':
+                x = cu.strip_casts(fn, fn.kid(e, 0))
+                if x is not None and x['k'] == 'bin' and x['op'] == '+':
+                    k = cu.const_of(cu.strip_casts(fn, fn.kid(x, 1)))
+                    return {1: 'lo', 2: 'hi'}.get(k)
+            if e['k'] == 'sub':
+                return {1: 'lo', 2: 'hi'}.get(cu.const_of(cu.strip_casts(fn, fn.kid(e, 1))))
+            if e['k'] == 'bin' and e['op'] == '>>' and cu.const_of(cu.strip_casts(fn, fn.kid(e, 1))) == 8:
+                return 'hi'
+            if e['k'] == 'bin' and e['op'] == '&' and 255 in (
+                    cu.const_of(cu.strip_casts(fn, fn.kid(e, 0))), cu.const_of(cu.strip_casts(fn, fn.kid(e, 1)))):
+                return 'lo'
+            if e['k'] == 'ref':
+                # the definition of that local in the same handler (assignment or
+                # declaration with initialiser)
+                best = None
+                for x in scope:
+                    if x.get('l', 0) > e.get('l', 0) or x['i'] == e['i']:
+                        continue        # (node ids do not follow source order: compare lines)
+                    if x['k'] == 'bin' and x['op'] == '=':
+                        l = cu.strip_casts(fn, fn.kid(x, 0))
+                        if l is not None and l['k'] == 'ref' and l['name'] == e['name']:
+                            best = fn.kid(x, 1)
+                    elif x['k'] == 'decl' and x.get('name') == e['name'] and x.get('c'):
+                        best = fn.kid(x, 0)
+                if best is not None:
+                    return half(fn, best, scope, depth + 1)
+            return None
+
+        def check(fn, cmpn, scope, where_kind):
+            nonlocal n_sites
+            a, b = cu.strip_casts(fn, fn.kid(cmpn, 0)), cu.strip_casts(fn, fn.kid(cmpn, 1))
+            for x, y in ((a, b), (b, a)):
+                if x is not None and x['k'] == 'bin' and x['op'] == '&' and y is not None:
+                    m = cu.strip_casts(fn, fn.kid(x, 1))
+                    hm, hv = half(fn, m, scope), half(fn, y, scope)
+                    if hm is None and hv is None:
+                        continue
+                    n_sites += 1
+                    ok = hm == want_mask and hv == want_value
+                    ctx.ob('R3.7', '%s:%s#%d:operand-halves' % (fn.name, where_kind, n_sites), ok, fn.loc(cmpn),
+                           'mask from the %s half, value from the %s half, as the emitter packs them' % (hm, hv)
+                           if ok else
+                           'the masked-literal test takes its mask from the %s half and its value from the '
+                           '%s half of the operand, the emitter packs the %s in the high half: the test '
+                           'compares against the wrong byte' % (hm, hv, hi_field))
+                    return
+        helpers = {}
+        for nodes in groups:
+            for x in nodes:
+                if x['k'] == 'bin' and x['op'] in ('==', '!='):
+                    check(f, x, nodes, 'case')
+                if x['k'] == 'call' and x.get('callee'):
+                    h = f.tu.functions.get(x['callee'])
+                    if h is not None and getattr(h, 'static', False) and h.name not in done_helpers:
+                        helpers[h.name] = h
+        # a static helper called from a masked-literal handler that performs the test
+        for h in helpers.values():
+            done_helpers.add(h.name)
+            hn = list(h.all_nodes())
+            for x in hn:
+                if x['k'] == 'bin' and x['op'] in ('==', '!='):
+                    check(h, x, hn, 'helper')
+        # tests guarded by `<opcode> == RE_OPCODE_MASKED_*` outside the handler
+        for x in f.all_nodes():
+            if x['k'] == 'bin' and x['op'] == '&&':
+                l = f.kid(x, 0)
+                guard = any(y['k'] == 'bin' and y['op'] == '==' and
+                            (cu.const_of(cu.strip_casts(f, f.kid(y, 1))) in M_OPS) and
+                            (cu.strip_casts(f, f.kid(y, 1)).get('mn') or '').startswith('RE_OPCODE_MASKED')
+                            for y in f.walk(l))
+                if guard:
+                    for y in f.walk(f.kid(x, 1)):
+                        if y['k'] == 'bin' and y['op'] in ('==', '!='):
+                            check(f, y, list(f.all_nodes()), 'guard')
+    ctx.count('masked_literal_tests', n_sites)
+
+
 def run(ctx):
     r3_1(ctx)
     ctx.floor('R3.1', 60)
@@ -502,3 +722,7 @@ def run(ctx):
     ctx.floor('R3.4', 3)
     r3_5(ctx)
     ctx.floor('R3.5', 3)
+    r3_6(ctx)
+    ctx.floor('R3.6', 2)
+    r3_7(ctx)
+    ctx.floor('R3.7', 1)
